@@ -70,6 +70,18 @@ def safeCall (s : BState) (c : Call) : Bool :=
        | none => true)
     else true
 
+/-- the readers' protocol for the initial location: a TA template is entered only outside a template; between its
+    proc_begin and its proc_end (or a decl_dynamic_template, or the end of the input) the reader either issues
+    proc_location_init or records a diagnostic.  The flag = "a TA template is open and neither has happened yet". -/
+def initShape : Bool → List Call → Bool
+  | p, [] => !p
+  | p, .procBegin _ isTA :: r => !p && initShape isTA r
+  | _, .procLocationInit _ :: r => initShape false r
+  | _, .handleError :: r => initShape false r
+  | p, .procEnd :: r => !p && initShape false r
+  | p, .declDynamicTemplate _ :: r => !p && initShape false r
+  | p, _ :: r => initShape p r
+
 /-! ### executable report -/
 
 def allIdx {α} (l : List α) (p : Nat → α → Bool) : Bool :=
